@@ -548,6 +548,17 @@ func runC06(c *CaseCtx) (res CaseResult) {
 			}
 		}
 	}
+	if zeroErrs == 0 && (c.Idx/3)%11 == 5 {
+		// failing bodies return an error value of a type that is not
+		// comparable (index-determined, no PRNG draw)
+		zeroErrs = 7
+		res.obs("cases_with_uncomparable_error_values", 1)
+		for i := range s.Convs {
+			if s.Convs[i].HasErr && (i+c.Idx)%2 == 0 {
+				s.Convs[i].Fail = true
+			}
+		}
+	}
 	for k := 0; k < reps; k++ {
 		in, err := Instantiate(s, r)
 		if err == nil {
